@@ -716,7 +716,7 @@ def _factorise_causes(g, q):
     outcome = {}
     for v, x in q:
         outcome.setdefault(S.name(v), set()).add("n" if x == "n" else ("m" if x == [S.name(v), "m"] else "p"))
-    lit = {a for v, _ in q for a, _ in S.ivs(v)}
+    lit = {a for v, _ in q for a, st in S.ivs(v) if st == "m"}     # a starred subscript +X cannot be captured
     bases = set(D)
     for w in bases:
         for a in D[w].values():
